@@ -3,11 +3,11 @@ import LokiModel.C32.Model
 import LokiModel.C32.Encode
 open LokiModel.Fir LokiModel.C32 Sexp
 
-/-- is the main unit inside the domain of `C32_constprop_sound_loopfree`? -/
+/-- is the main unit inside the domain of `C32_constprop_sound`? -/
 def cpDomain (p : Program) : Bool :=
   match findUnit p p.main with
   | some u => match declMap u.decls with
-      | some m => cpOK (arraysOf u.decls) (declTy u.decls) u.body m
+      | some m => cpOKL (arraysOf u.decls) (declTy u.decls) u.body m
       | none => false
   | none => false
 
@@ -20,7 +20,6 @@ def step : Sexp → Option Sexp
       let p ← decProgram prog
       match op with
       | "dc" =>
-          if KnownDcElseIf (flag == "simp") p then pure (list [atom "error", atom "validationerror"]) else
           match dcProgram (flag == "simp") p with
           | some p' => pure (list [atom "ok", encProgram p', list [atom "dom", ofBool true]])
           | none => pure (list [atom "outside-class"])
